@@ -133,6 +133,52 @@ static int lt_del(live_tab *t, void *p) {
     return 0;
 }
 
+/* ------------------------------------------------------------------ shared-memory monitor (M-shared, C19) */
+/* Everything allocated while a configuration is being built comes from a private arena; once protection is on, the
+ * arena and the writable segment of libhtp_v.so (.data/.bss) are PROT_READ, so any write to memory that another
+ * parser could reach faults deterministically. */
+#include <sys/mman.h>
+#include <link.h>
+static uint8_t *arena_base; static size_t arena_size, arena_used; static int arena_on, shared_protected;
+static uintptr_t seg_lo, seg_hi;              /* writable PT_LOAD of libhtp_v.so, page aligned */
+uintptr_t hx_prot_lo[2], hx_prot_hi[2]; int hx_prot_n = 0;
+static int phdr_cb(struct dl_phdr_info *info, size_t sz, void *data) {
+    (void) sz; (void) data;
+    if (!info->dlpi_name || !strstr(info->dlpi_name, "libhtp_v.so")) return 0;
+    for (int i = 0; i < info->dlpi_phnum; i++) {
+        const ElfW(Phdr) *ph = &info->dlpi_phdr[i];
+        if (ph->p_type == PT_LOAD && (ph->p_flags & PF_W)) {
+            uintptr_t lo = info->dlpi_addr + ph->p_vaddr, hi = lo + ph->p_memsz;
+            seg_lo = lo & ~(uintptr_t) 4095; seg_hi = (hi + 4095) & ~(uintptr_t) 4095;
+        }
+    }
+    return 0;
+}
+static void *arena_alloc(size_t n) {
+    n = (n + 15) & ~(size_t) 15;
+    if (arena_used + n + 16 > arena_size) { fprintf(stderr, "hx: cfg arena exhausted\n"); abort(); }
+    size_t *hdr = (size_t *) (arena_base + arena_used); *hdr = n; arena_used += 16;
+    void *p = arena_base + arena_used; arena_used += n; return p;
+}
+static int in_arena(const void *p) { return arena_on && (const uint8_t *) p >= arena_base && (const uint8_t *) p < arena_base + arena_size; }
+static void shared_set(int prot) {
+    if (!arena_on) return;
+    mprotect(arena_base, arena_size, prot ? PROT_READ : PROT_READ | PROT_WRITE);
+    if (seg_lo) mprotect((void *) seg_lo, seg_hi - seg_lo, prot ? PROT_READ : PROT_READ | PROT_WRITE);
+    shared_protected = prot;
+}
+int hx_shared_enable(void) {
+    arena_size = 8u << 20; arena_base = mmap(NULL, arena_size, PROT_READ | PROT_WRITE, MAP_PRIVATE | MAP_ANONYMOUS, -1, 0);
+    if (arena_base == MAP_FAILED) return -1;
+    dl_iterate_phdr(phdr_cb, NULL);
+    arena_on = 1;
+    hx_prot_lo[0] = (uintptr_t) arena_base; hx_prot_hi[0] = (uintptr_t) arena_base + arena_size; hx_prot_n = 1;
+    if (seg_lo) { hx_prot_lo[1] = seg_lo; hx_prot_hi[1] = seg_hi; hx_prot_n = 2; }
+    shared_set(1);
+    return seg_lo ? 2 : 1;
+}
+void hx_shared_disable(void) { if (arena_on) shared_set(0); }
+
 /* ------------------------------------------------------------------ allocator seam --------- */
 int hx_in_lib = 0;               /* 0 harness, 1 library (execution phase), 2 library (cfg phase) */
 long hx_alloc_seq = 0;
@@ -191,16 +237,23 @@ static inline void track_del(void *p) {
     lt_del(&lt_cfg, p);
 }
 void *__wrap_malloc(size_t n) {
+    if (hx_in_lib == 2 && arena_on) return arena_alloc(n);
     if (!hx_in_lib) return __real_malloc(n);
     if (hx_in_lib == 1 && fault_now()) return NULL;
     void *p = __real_malloc(n); track_add(p, n); return p;
 }
 void *__wrap_calloc(size_t a, size_t b) {
+    if (hx_in_lib == 2 && arena_on) { void *p = arena_alloc(a * b); memset(p, 0, a * b); return p; }
     if (!hx_in_lib) return __real_calloc(a, b);
     if (hx_in_lib == 1 && fault_now()) return NULL;
     void *p = __real_calloc(a, b); track_add(p, a * b); return p;
 }
 void *__wrap_realloc(void *o, size_t n) {
+    if (in_arena(o) || (hx_in_lib == 2 && arena_on)) {
+        void *p = arena_alloc(n);
+        if (o) { size_t old = in_arena(o) ? ((size_t *) o)[-2] : 0; memcpy(p, o, old < n ? old : n); }
+        return p;
+    }
     if (!hx_in_lib) { if (o) track_del(o); return __real_realloc(o, n); }
     if (hx_in_lib == 1 && fault_now()) return NULL;
     if (o) track_del(o);
@@ -209,10 +262,12 @@ void *__wrap_realloc(void *o, size_t n) {
     return p;
 }
 void __wrap_free(void *p) {
+    if (in_arena(p)) return;
     if (p) track_del(p);
     __real_free(p);
 }
 char *__wrap_strdup(const char *s) {
+    if (hx_in_lib == 2 && arena_on) { size_t l = strlen(s) + 1; char *p = arena_alloc(l); memcpy(p, s, l); return p; }
     if (!hx_in_lib) return __real_strdup(s);
     if (hx_in_lib == 1 && fault_now()) return NULL;
     char *p = __real_strdup(s); track_add(p, p ? strlen(p) + 1 : 0); return p;
@@ -261,6 +316,7 @@ htp_cfg_t *hx_cfg_get(const hx_cfgspec *s) {
     for (int i = 0; i < cfg_cache_n; i++)
         if (memcmp(&cfg_cache[i].spec, s, sizeof *s) == 0) return cfg_cache[i].cfg;
     if (cfg_cache_n == HX_MAXCFG) { fprintf(stderr, "hx: cfg cache full\n"); abort(); }
+    int was_protected = shared_protected; if (was_protected) shared_set(0);
     int sv = hx_in_lib; hx_in_lib = 2;
     htp_cfg_t *cfg = htp_config_create();
     if (htp_config_set_server_personality(cfg, s->personality) != HTP_OK) {
@@ -286,10 +342,12 @@ htp_cfg_t *hx_cfg_get(const hx_cfgspec *s) {
     hx_register_callbacks(cfg);
     hx_in_lib = sv;
     cfg_cache[cfg_cache_n].spec = *s; cfg_cache[cfg_cache_n].cfg = cfg; cfg_cache_n++;
+    if (was_protected) shared_set(1);
     return cfg;
 }
 static long cfg_leak_count(void) { return (long) lt_cfg.cnt; }
 void hx_cfg_destroy_all(void) {
+    if (shared_protected) shared_set(0);
     int sv = hx_in_lib; hx_in_lib = 2;
     for (int i = 0; i < cfg_cache_n; i++) htp_config_destroy(cfg_cache[i].cfg);
     hx_in_lib = sv;
